@@ -227,6 +227,20 @@ class Execution:
         c.observe(kind, info, None if exc is None else type(exc).__name__)
         self._unsleep()
 
+    def shared_access(self, kind, name):
+        # reads and writes of memory shared between threads of one Cache
+        # object are scheduling points when the scenario shares the object
+        c = self.me()
+        if c is None or self.abort or c.state != 'running':
+            return
+        if getattr(self.sc, 'mode', None) == 'shared':
+            self.point(c, ('mem-' + kind, name))
+
+    def shared_read(self, name, value):
+        c = self.me()
+        if c is not None:
+            c.observe('read', name, value)
+
     def sleep(self, seconds):
         c = self.me()
         if c is None:
